@@ -28,16 +28,24 @@ func chanFor(p unsafe.Pointer) *chanMeta {
 
 type sendRef[T any] struct{ ch chan<- T }
 
-func (r sendRef[T]) chLen() int     { return len(r.ch) }
+//go:norace
+func (r sendRef[T]) chLen() int { return len(r.ch) }
+
+//go:norace
 func (r sendRef[T]) chCap() int     { return cap(r.ch) }
 func (r sendRef[T]) chClosed() bool { return false }
 
 type recvRef[T any] struct{ ch <-chan T }
 
+//go:norace
 func (r recvRef[T]) chLen() int { return len(r.ch) }
+
+//go:norace
 func (r recvRef[T]) chCap() int { return cap(r.ch) }
 
 // chClosed is only used for capacity-0 channels on which nobody sends (done channels).
+//
+//go:norace
 func (r recvRef[T]) chClosed() bool {
 	select {
 	case <-r.ch:
@@ -48,6 +56,8 @@ func (r recvRef[T]) chClosed() bool {
 }
 
 // Send replaces `ch <- v`.
+//
+//go:norace
 func Send[T any](ch chan<- T, v T) {
 	if S == nil || S.aborting {
 		if S != nil {
@@ -73,12 +83,16 @@ func Send[T any](ch chan<- T, v T) {
 }
 
 // Recv replaces `<-ch` / `v := <-ch`.
+//
+//go:norace
 func Recv[T any](ch <-chan T) T {
 	v, _ := RecvOK(ch)
 	return v
 }
 
 // RecvOK replaces `v, ok := <-ch`.
+//
+//go:norace
 func RecvOK[T any](ch <-chan T) (T, bool) {
 	if S == nil || S.aborting {
 		if S != nil {
@@ -128,6 +142,8 @@ func RecvOK[T any](ch <-chan T) (T, bool) {
 // WaitDone replaces `<-ctx.Done()`: a blocking wait for cancellation. It is an
 // acquire-like operation (enabled once the context is cancelled) and does not make the
 // waiter a *reader* that a later cancellation could race with.
+//
+//go:norace
 func WaitDone(ctx context.Context) {
 	c, ok := ctx.(*Ctx)
 	if !ok || S == nil || S.aborting {
